@@ -340,7 +340,7 @@ func (ss *Sorts) sortOf1(t types.Type) Sort {
 			ss.declare(&sortInfo{Name: name, Kind: "opaque", Decl: fmt.Sprintf("(declare-sort %s 0)", name), GoType: t})
 			return name
 		}
-		ss.declare(&sortInfo{Name: name, Kind: "ptr", Elem: tt.Elem(), GoType: t,
+		ss.declare(&sortInfo{Name: name, Kind: "ptr", Elem: ss.substType(tt.Elem()), GoType: ss.substType(t),
 			Decl: fmt.Sprintf("(declare-datatypes ((%s 0)) (((nil.%s) (ref.%s (val.%s %s)))))", name, name, name, name, es)})
 		return name
 	case *types.Slice:
@@ -350,7 +350,7 @@ func (ss *Sorts) sortOf1(t types.Type) Sort {
 			ss.declare(&sortInfo{Name: name, Kind: "opaque", Decl: fmt.Sprintf("(declare-sort %s 0)", name), GoType: t})
 			return name
 		}
-		ss.declare(&sortInfo{Name: name, Kind: "slice", Elem: tt.Elem(), GoType: t,
+		ss.declare(&sortInfo{Name: name, Kind: "slice", Elem: ss.substType(tt.Elem()), GoType: ss.substType(t),
 			Decl: fmt.Sprintf("(declare-datatypes ((%s 0)) (((mk.%s (len.%s Int) (arr.%s (Array Int %s)) (isnil.%s Bool)))))", name, name, name, name, es, name)})
 		return name
 	case *types.Array:
@@ -364,11 +364,24 @@ func (ss *Sorts) sortOf1(t types.Type) Sort {
 			ss.declare(&sortInfo{Name: name, Kind: "opaque", Decl: fmt.Sprintf("(declare-sort %s 0)", name), GoType: t})
 			return name
 		}
-		ss.declare(&sortInfo{Name: name, Kind: "map", Elem: tt.Elem(), Key: tt.Key(), GoType: t,
+		ss.declare(&sortInfo{Name: name, Kind: "map", Elem: ss.substType(tt.Elem()), Key: ss.substType(tt.Key()), GoType: ss.substType(t),
 			Decl: fmt.Sprintf("(declare-datatypes ((%s 0)) (((mk.%s (has.%s (Array %s Bool)) (get.%s (Array %s %s)) (card.%s Int) (isnil.%s Bool)))))", name, name, name, ks, name, ks, vs, name, name)})
 		return name
 	case *types.Struct:
-		name := Sort("S_" + fmt.Sprintf("anon%d", len(ss.order)))
+		// an anonymous struct type is named after its fields (name and sort), so
+		// that the same type reached under two type-parameter substitutions
+		// (map[T]struct{} with T := K, and map[K]struct{}) has one sort
+		sig := ""
+		for i := 0; i < tt.NumFields(); i++ {
+			sig += tt.Field(i).Name() + ":" + string(ss.sortOf(tt.Field(i).Type())) + ";"
+		}
+		name := Sort(fmt.Sprintf("S_anon%x", hashString(sig)))
+		if tt.NumFields() == 0 {
+			name = "S_empty"
+		}
+		if _, ok := ss.info[name]; ok {
+			return name
+		}
 		return ss.structSort(name, tt, tt)
 	case *types.Interface:
 		if tt.NumMethods() == 0 {
@@ -412,7 +425,7 @@ func (ss *Sorts) structSort(name Sort, u *types.Struct, gt types.Type) Sort {
 	for i := 0; i < u.NumFields(); i++ {
 		f := u.Field(i)
 		fsrt := ss.sortOf(f.Type())
-		si.Fields = append(si.Fields, fieldInfo{f.Name(), fsrt, f.Type()})
+		si.Fields = append(si.Fields, fieldInfo{f.Name(), fsrt, ss.substType(f.Type())})
 		fs = append(fs, fmt.Sprintf("(%s.%s %s)", name, f.Name(), fsrt))
 	}
 	delete(ss.busy, name)
@@ -726,3 +739,53 @@ const strLtDecl = `(declare-fun gs.lt (Str Str) Bool)
 (assert (forall ((a Str) (b Str)) (! (=> (gs.lt a b) (not (gs.lt b a))) :pattern ((gs.lt a b)))))
 (assert (forall ((a Str) (b Str) (c Str)) (! (=> (and (gs.lt a b) (gs.lt b c)) (gs.lt a c)) :pattern ((gs.lt a b) (gs.lt b c)))))
 (assert (forall ((a Str) (b Str)) (! (or (= a b) (gs.lt a b) (gs.lt b a)) :pattern ((gs.lt a b)))))`
+
+// substType applies the current type-parameter substitution to a type, so that
+// the Go types recorded in sort descriptions (fields, elements, keys) do not
+// mention type parameters that are out of scope when they are used later.
+func (ss *Sorts) substType(t types.Type) types.Type {
+	if len(ss.tparams) == 0 || t == nil {
+		return t
+	}
+	switch tt := t.(type) {
+	case *types.TypeParam:
+		if a, ok := ss.tparams[tt.Obj().Name()]; ok {
+			return a
+		}
+	case *types.Pointer:
+		if e := ss.substType(tt.Elem()); e != tt.Elem() {
+			return types.NewPointer(e)
+		}
+	case *types.Slice:
+		if e := ss.substType(tt.Elem()); e != tt.Elem() {
+			return types.NewSlice(e)
+		}
+	case *types.Array:
+		if e := ss.substType(tt.Elem()); e != tt.Elem() {
+			return types.NewArray(e, tt.Len())
+		}
+	case *types.Map:
+		k, v := ss.substType(tt.Key()), ss.substType(tt.Elem())
+		if k != tt.Key() || v != tt.Elem() {
+			return types.NewMap(k, v)
+		}
+	case *types.Named:
+		if ta := tt.TypeArgs(); ta != nil && ta.Len() > 0 {
+			changed := false
+			var args []types.Type
+			for i := 0; i < ta.Len(); i++ {
+				a := ss.substType(ta.At(i))
+				if a != ta.At(i) {
+					changed = true
+				}
+				args = append(args, a)
+			}
+			if changed {
+				if inst, err := types.Instantiate(nil, tt.Origin(), args, false); err == nil {
+					return inst
+				}
+			}
+		}
+	}
+	return t
+}
